@@ -23,6 +23,14 @@ for pid in ALL:
             if nm in ("PROP", "LEVEL", "LEVEL_TEXT", "LEVEL_NOTE", "TECHNIQUE", "DESIGN_REF"):
                 meta[nm] = ast.literal_eval(node.value)
     claimed.append(pid)
+    import contracts.index as _ix
+    _lv = _ix.level_of(pid)
+    if _lv:
+        meta["LEVEL"] = _lv[0]
+        if _lv[1]:
+            meta["LEVEL_TEXT"] = _lv[1]
+        if _lv[2]:
+            meta["TECHNIQUE"] = _lv[2]
     checks.append(dict(
         property_id=pid,
         quick_cmd=f"./check {pid} --tier quick",
